@@ -257,6 +257,11 @@ def direct_oracle(ctx, c):
             text = lines[ln - 1] if ln - 1 < len(lines) else b""
             if not (1 <= col <= len(text) + 2):
                 return ctx.fail("diag-col-range", "diagnostic column %d outside line %d (length %d)" % (col, ln, len(text)), rp())
+        if c.gen.get("span"):
+            a, b = c.gen["span"]
+            if i.loc is None or not (a <= i.loc[0] <= b):
+                return ctx.fail("diag-outside-statement", "the statement that fails spans lines %d-%d, the diagnostic points at %s"
+                                % (a, b, i.loc), rp())
         if i.leftover:
             return ctx.fail("leftover-output", "a failing input left its output file behind", rp())
         return
@@ -282,6 +287,24 @@ def deep_probes(ctx):
                                              "observed": i.kind})
         else:
             direct_oracle(ctx, c)
+
+
+def position_cases():
+    """run-time errors of every kind raised by a statement that spans several lines, after other statements on other
+    lines: the diagnostic must point into the failing statement (kind, source, (first line, last line))"""
+    pre = PREAMBLE + "let cl = ipv4::udp::flow(1.2.3.4:1, 1.2.3.5:2);\ncl.client_dgram(\"one\");\n\n"      # lines 1-5 (PREAMBLE = 2 lines)
+    out = []
+    bodies = {"rebind": "let cl = ipv4::udp::flow(\n    1.2.3.4:1,\n    1.2.3.5:2\n);\n",
+              "name": "cl.client_dgram(\n    \"x\",\n    nosuch\n);\n",
+              "type": "cl.client_dgram(\n    \"x\",\n    csum: \"yes\"\n);\n",
+              "import": "import\n   nosuchmodule\n;\n",
+              "member": "cl\n  .nosuchmethod(\n);\n",
+              "runtime": "time::jump_seconds(\n  18446744073709551615\n);\ncl.client_dgram(\"late\");\n"}
+    first = pre.count("\n") + 1
+    for k, b in bodies.items():
+        last = first + b.rstrip("\n").count("\n") - (1 if k == "runtime" else 0)
+        out.append(("position:" + k, pre + b + "cl.client_dgram(\"after\");\n", (first, last)))
+    return out
 
 
 def batch_contract(ctx, wd):
@@ -402,6 +425,9 @@ def run(ctx):
         add(kind, src)
     for kind, src in corner_cases(ctx):
         add(kind, src)
+    for kind, src, span in position_cases():
+        add(kind, src)
+        cases[-1].gen["span"] = span
     wd0 = common.workdir("c08files")
     bigfiles = {os.path.join(wd0, "c08big.bin"): b"\xab" * 65530, os.path.join(wd0, "c08huge.bin"): b"\xcd" * 70000}
     for kind, src in oversize_cases(ctx, wd0):
